@@ -350,17 +350,30 @@ func zzJoin(ss []string) string {
 
 // ---------------------------------------------------------------- D: dump through the real API
 
+// zzDumpSoft: a dump of a snapshot that a listed known finding may already have damaged records
+// structural surprises in zzDumpBroken instead of asserting them (the caller asserts under the finding's
+// trigger).
+var zzDumpSoft, zzDumpBroken bool
+
 func zzDumpBucket(b *Bucket, depth int, out *[]zzKV) {
 	c := b.Cursor()
 	n := 0
 	for k, v := c.First(); k != nil; k, v = c.Next() {
 		n++
 		if n > 10000 {
+			if zzDumpSoft {
+				zzDumpBroken = true
+				return
+			}
 			zz.Assert(false, "D/cursor-terminates")
 			return
 		}
 		if v == nil {
 			nb := b.Bucket(k)
+			if nb == nil && zzDumpSoft {
+				zzDumpBroken = true
+				continue
+			}
 			zz.Assert(nb != nil, "D/nested-bucket-opens")
 			if nb == nil {
 				continue
